@@ -223,6 +223,9 @@ impl Accept {
                         self.deregister_all(sockets);
                     }
 
+                    // cleanup file paths of unix domain socket listeners
+                    sockets.iter().for_each(|info| info.lst.cleanup());
+
                     return true;
                 }
 
